@@ -838,6 +838,70 @@ func (s *lockSys) runRawStress(rnd *rand.Rand, acqs int) {
 	s.quiesce()
 }
 
+// runDeadTry: p1 holds; p2 calls TryLock with a context that is already done (and Lock variants with a context that
+// ends at once); p3 then tries: nobody may acquire while p1 holds, whatever the failed attempts did on their way out.
+func (s *lockSys) runDeadTry() {
+	s.auto = true
+	call := func(pid int, kind string, dead bool) string {
+		l := s.lockers[s.procs[pid].locker-1]
+		ctx, cancel := context.WithCancel(context.Background())
+		defer cancel()
+		if dead {
+			cancel()
+		}
+		s.mu.Lock()
+		s.ev(map[string]any{"e": "call", "p": pid, "kind": kind, "late": false})
+		if dead {
+			s.ev(map[string]any{"e": "cancel", "p": pid, "acq": false})
+		}
+		s.mu.Unlock()
+		res := "ok"
+		if p, _ := callPanics(func() {
+			if kind == "try" {
+				if !l.TryLock(ctx) {
+					res = "false"
+				}
+			} else {
+				res = classifyLockErr(l.LockWithCtx(ctx))
+			}
+		}); p {
+			res = "panic"
+		}
+		s.mu.Lock()
+		s.ev(map[string]any{"e": "ret", "p": pid, "res": res})
+		s.mu.Unlock()
+		return res
+	}
+	unlock := func(pid int) {
+		l := s.lockers[s.procs[pid].locker-1]
+		s.mu.Lock()
+		s.ev(map[string]any{"e": "unlock", "p": pid})
+		s.mu.Unlock()
+		up, _ := callPanics(func() { l.Unlock() })
+		s.mu.Lock()
+		s.ev(map[string]any{"e": "unlocked", "p": pid, "panic": up})
+		s.mu.Unlock()
+	}
+	if call(1, "try", false) != "ok" {
+		return
+	}
+	for round := 0; round < 3; round++ {
+		call(2, "try", true)
+		if call(3, "try", false) == "ok" {
+			unlock(3)
+		}
+		call(2, "ctx", true)
+		if call(3, "try", false) == "ok" {
+			unlock(3)
+		}
+	}
+	unlock(1)
+	if call(2, "try", false) == "ok" {
+		unlock(2)
+	}
+	s.quiesce()
+}
+
 // runOrphan: p1 acquires and unlocks, the REQUEST of its Delete is lost: its record stays behind (nobody renews it).
 // p1 locks again through the same Locker and finds its own old record.  Whatever it does about that: if it issues a
 // write the protocol does not know (a take-over), the write is held back while the orphan's lease runs out and p2
@@ -1077,6 +1141,15 @@ func driveLock(opt *Options) error {
 		s.runOrphan(quiet)
 		flush(s, true)
 		s.close()
+		for _, topo := range [][]int{{1, 2, 3}, {1, 1, 2}} { // three providers; p1 and p2 on lockers of ONE provider
+			s, err := newLockSys([]int{1, 2, 3}, topo, opt.Variant, lease)
+			if err != nil {
+				return err
+			}
+			s.runDeadTry()
+			flush(s, true)
+			s.close()
+		}
 	case "latedelete":
 		s, err := newLockSys([]int{1, 2, 3}, []int{1, 2, 3}, opt.Variant, lease)
 		if err != nil {
